@@ -1860,3 +1860,69 @@ func c05StickyErr(c *Ctx) {
 	c.R.Checkf(rule, "drained-bufio-reader-is-bypassed@bufioConn.Read", c.pos(f.Pos()), ok,
 		"bufioConn.Read calls the bufio.Reader only on the edge where it still has buffered bytes (%d call(s)); with an empty buffer the reader would return its remembered error — the detection window's timeout — as the result of the relay's first read, and the connection is cut although it is healthy", n)
 }
+
+// C10 LIVEINSTALL: the asynchronous installer (queued on a cache hit) installs
+// the routing of an entry only after checking that this very entry is still
+// the one stored in the cache; otherwise a task that outlives its entry's
+// eviction puts the entry's addresses back into the kernel table for ever.
+func c10LiveInstall(c *Ctx) {
+	const rule = "WIRING"
+	f := c.fn(rule, "control", "DnsController.processBpfUpdateTask")
+	if f == nil {
+		return
+	}
+	info := f.Info()
+	// local closures that consult the cache
+	loaders := map[types.Object]bool{}
+	loadsCache := func(n ast.Node) bool {
+		hit := false
+		ast.Inspect(n, func(m ast.Node) bool {
+			if call, ok := m.(*ast.CallExpr); ok {
+				if recv, name, isM := methodCall(call); isM && name == "Load" && strings.HasSuffix(core.ExprStr(recv), ".dnsCache") {
+					hit = true
+				}
+			}
+			return true
+		})
+		return hit
+	}
+	ast.Inspect(f.Body, func(m ast.Node) bool {
+		if as, ok := m.(*ast.AssignStmt); ok && len(as.Lhs) == 1 && len(as.Rhs) == 1 {
+			if lit, ok := as.Rhs[0].(*ast.FuncLit); ok && loadsCache(lit.Body) {
+				if id, ok := as.Lhs[0].(*ast.Ident); ok {
+					loaders[info.ObjectOf(id)] = true
+				}
+			}
+		}
+		return true
+	})
+	checks := func(n ast.Node) bool {
+		if _, isAssign := n.(*ast.AssignStmt); isAssign {
+			if as := n.(*ast.AssignStmt); len(as.Rhs) == 1 {
+				if _, isLit := as.Rhs[0].(*ast.FuncLit); isLit {
+					return false // defining the closure is not running it
+				}
+			}
+		}
+		hit := false
+		ownCalls(n, func(call *ast.CallExpr, _ bool) {
+			if id, ok := call.Fun.(*ast.Ident); ok && loaders[info.ObjectOf(id)] {
+				hit = true
+			}
+			if recv, name, isM := methodCall(call); isM && name == "Load" && strings.HasSuffix(core.ExprStr(recv), ".dnsCache") {
+				hit = true
+			}
+		})
+		return hit
+	}
+	install := func(n ast.Node) bool {
+		hit := false
+		ownCalls(n, func(call *ast.CallExpr, deferred bool) {
+			if !deferred && strings.HasSuffix(core.ExprStr(call.Fun), ".cacheAccessCallback") {
+				hit = true
+			}
+		})
+		return hit
+	}
+	c.dominated(rule, "async-install-only-for-the-live-entry@processBpfUpdateTask", f, install, checks, "the asynchronous install (cacheAccessCallback)", "a look-up of the entry in dnsCache (is the queued entry still the stored one?)")
+}
